@@ -178,3 +178,11 @@ def c01(F, R, tier):
 def c02(F, R, tier):
     import c01 as mod
     mod.check_c02(F, R)
+
+
+@prop("C07",
+      technique="static: end-point polarity type system over the interval constructors; forward/inverse operation tables extracted from typed HIR; field-use and who-may-write rules; loop-bound and freeze rules",
+      explanation="PARTIAL. Decides (P-IVL) every Bounds::new / struct literal in bounds.rs builds its lower end-point from lower bounds (L) or exact constants and its upper from upper bounds, under the typing rules L+L=L, U+U=U, -L=U, branch-known sign of scale factors, min/max of equal polarity, loosening by the tolerance, ceil/floor only for integer ranges, max(L,0) only for non-negative variables; (T-BOUNDSOF) each Exp form is enclosed by the interval operation of the same name, min/max fold both end-points with min/max, products and quotients only by (non-zero) literals, everything else unbounded, logic forms [0,1]; (T-INVERSE) reverse propagation uses the inverse operation with the other operand's enclosure (Add, Sub, Mul c!=0, Div d!=0, Neg, affine rows), requirement table per comparison, intersect-first; (W-REVERSE) abs and max read only required.upper, min only required.lower, logic forms tighten nothing; (W-NANFREE) no raw end-point sums outside lower_sum/upper_sum, zero factors short-circuit; (W-WRITE) only tighten_variable stores ranges and it stores the intersection; (D-FREEZE, L-STEPS) propagation stops at the step limit and on a contradiction. NOT decided: the algebra of prefix/suffix sums, float rounding of propagated bounds, the published-range soundness as a whole (numeric).")
+def c07(F, R, tier):
+    import c07 as mod
+    mod.check(F, R)
